@@ -331,3 +331,15 @@ Proof.
   intros a bx by_ Hbx Hby. eapply Hv; [constructor; [eassumption|constructor; [eassumption|constructor]]|].
   apply binary_tt_to_type_den.
 Qed.
+
+(* what `ext c c'` says, in one statement *)
+Theorem ext_meaning c c' :
+  ext c c' ->
+  (exists ng m, gates c' = gates c ++ ng /\ Forall (new_entry c) ng /\ NoDup (dkeys ng) /\
+                inputs c' = inputs c /\ blocks c' = blocks c /\ outputs c' = outputs c ++ m) /\
+  (forall a l v, Eval c a l v -> Eval c' a l v) /\
+  (closed c -> closed c' /\ forall a l v, has_gate c l = true -> Eval c' a l v -> Eval c a l v).
+Proof.
+  intros H. split; [apply ext_fields, H|]. split; [intros; eapply Eval_ext; eassumption|].
+  intros Hc. split; [eapply ext_closed; eassumption|]. intros; eapply Eval_ext_inv; eassumption.
+Qed.
